@@ -55,7 +55,7 @@ def cases(draw, d):
 
 def features(doc):
     f = set()
-    for text, kind in doc["tokens"]:
+    for text, kind, _val in doc["tokens"]:
         if kind == "word":
             if "#" in text:
                 f.add("based-int")
